@@ -34,7 +34,9 @@ EXPLANATION = (
     '(D3) the three PAM reassignment masks are exhaustive and disjoint over '
     'their two atoms and each writes labels and distances from paired '
     'sources; (D4) ClusterResult fields/roles agree at every construction and '
-    'unpacking site; (D5) no store reaches a caller-owned argument of the '
+    'unpacking site, the producers return labels/distances at their documented '
+    'positions, and every estimator fit stores the result of the function form '
+    'applied to its own data argument on every returning path; (D5) no store reaches a caller-owned argument of the '
     'clustering entry points (whole-package alias/effects fixed point). '
     'Numerical equality of reported and recomputed distances is NOT decided.')
 
@@ -123,12 +125,166 @@ def _same_def(fi, a, b):
     return isinstance(a, ast.Name) and isinstance(b, ast.Name) and fi.same_value(a, b)
 
 
-def _result_kw_names(fn, field):
-    """Names passed as ClusterResult(<field>=...) inside fn."""
+def _component(fi, e, at, depth=8):
+    """(call, k): the value of expression `e`, evaluated at statement `at`, is
+    element k of the tuple returned by the Call node `call` (k None: the whole
+    result).  Seen through single reaching definitions: `a, d = f(..)`,
+    `t = f(..); a, d = t`, `a = t[0]`, `a, d = (t[0], t[1])`, copies `b = a`.
+    None when the value is anything else (or has several definitions)."""
+    if depth <= 0 or e is None:
+        return None
+    if isinstance(e, ast.Call):
+        return (e, None)
+    if isinstance(e, ast.Subscript):
+        k = const_value(e.slice)
+        inner = _component(fi, e.value, at, depth - 1)
+        if inner is not None and inner[1] is None and isinstance(k, int) and \
+                not isinstance(k, bool) and k >= 0:
+            return (inner[0], k)
+        return None
+    if isinstance(e, ast.Name):
+        try:
+            defs = fi.rd.defs_at(at, e.id)
+        except Exception:
+            return None
+        if len(defs) != 1:
+            return None
+        return _component_def(fi, next(iter(defs)), e.id, depth)
+    return None
+
+
+def _component_def(fi, site, name, depth=8):
+    """_component for the value bound to `name` by the definition `site`."""
+    if not isinstance(site, ast.Assign) or len(site.targets) != 1:
+        return None
+    t = site.targets[0]
+    if isinstance(t, ast.Name):
+        r = _component(fi, site.value, site, depth - 1)
+        if r is not None and r[1] is None and fi._mutated_in_place(name):
+            return None         # a list result patched in place
+        return r
+    if isinstance(t, (ast.Tuple, ast.List)) and all(isinstance(x, ast.Name) for x in t.elts):
+        pos = [i for i, x in enumerate(t.elts) if x.id == name]
+        if len(pos) != 1:
+            return None
+        if isinstance(site.value, (ast.Tuple, ast.List)):
+            if len(site.value.elts) != len(t.elts) or \
+                    any(isinstance(x, ast.Starred) for x in site.value.elts):
+                return None
+            return _component(fi, site.value.elts[pos[0]], site, depth - 1)
+        inner = _component(fi, site.value, site, depth - 1)
+        if inner is not None and inner[1] is None:
+            return (inner[0], pos[0])
+    return None
+
+
+def _subst_call_temps(fi, e, at, callees):
+    """Copy of `e` (evaluated at statement `at`) in which a name whose single
+    reaching definition is `name = <call of one of callees>` is replaced by
+    that call, provided the operands of the call have the same reaching
+    definitions at `at` as at the call."""
+    import copy as _copy
+    e = _copy.deepcopy(e)
+
+    class T(ast.NodeTransformer):
+        def visit_Name(self, n):
+            if not isinstance(n.ctx, ast.Load):
+                return n
+            try:
+                defs = fi.rd.defs_at(at, n.id)
+            except Exception:
+                return n
+            if len(defs) != 1:
+                return n
+            site = next(iter(defs))
+            if not isinstance(site, ast.Assign) or len(site.targets) != 1 or \
+                    not isinstance(site.targets[0], ast.Name) or not isinstance(site.value, ast.Call) or \
+                    _last(call_name(site.value)) not in callees:
+                return n
+            for x in walk_expr(site.value):
+                if isinstance(x, ast.Name) and isinstance(x.ctx, ast.Load) and \
+                        fi.rd.defs_at(site, x.id) != fi.rd.defs_at(at, x.id):
+                    return n
+            return _copy.deepcopy(site.value)
+    return T().visit(e)
+
+
+def _names_bound_in(fn):
+    out = set()
+    for s in walk_local(fn):
+        if isinstance(s, ast.Assign):
+            for t in s.targets:
+                out |= set(target_names(t))
+    return out
+
+
+def _root_def(fi, name_node, depth=6):
+    """(definition site, name) that produced the value of a Name use, seen
+    through plain copies `a = b` / `a = int(b)` with a single reaching
+    definition each."""
+    nm, at = name_node.id, fi.stmt(name_node)
+    for _ in range(depth):
+        try:
+            defs = fi.rd.defs_at(at, nm)
+        except Exception:
+            return None
+        if len(defs) != 1:
+            return None
+        site = next(iter(defs))
+        if site in ('PARAM', 'UNBOUND'):
+            return (site, nm)
+        v = fi.def_value(site, nm)
+        v = _strip_int(v) if v is not None else None
+        if isinstance(v, ast.Name):
+            nm, at = v.id, site
+            continue
+        return (site, nm)
+    return None
+
+
+def _unchanged_between(fi, names, s1, s2):
+    """No name of `names` is rebound or mutated in place on a path between the
+    statements s1 and s2 (either order)."""
+    cfg = fi.cfg
+    for nm in names:
+        try:
+            if fi.rd.defs_at(s1, nm) != fi.rd.defs_at(s2, nm):
+                return False
+        except Exception:
+            return False
+        for ms in fi._mutated_in_place(nm):
+            for x, y in ((s1, s2), (s2, s1)):
+                if (ms is x or cfg.reachable(x, ms)) and cfg.reachable(ms, y) and ms is not y:
+                    return False
+    return True
+
+
+def _same_root(fi, a, b):
+    ra, rb = _root_def(fi, a), _root_def(fi, b)
+    return ra is not None and rb is not None and ra[0] is rb[0] and ra[1] == rb[1] \
+        and ra[0] not in ('UNBOUND',)
+
+
+def _cluster_result_fields(ck):
+    """Declared field order of the ClusterResult namedtuple (None if not found)."""
+    cls = ck.repo.mod(CU).classes.get('ClusterResult')
+    for b in (cls.bases if cls is not None else []):
+        if isinstance(b, ast.Call) and _last(call_name(b)) == 'namedtuple' and len(b.args) == 2 \
+                and isinstance(b.args[1], (ast.List, ast.Tuple)):
+            return [e.value for e in b.args[1].elts if isinstance(e, ast.Constant)]
+    return None
+
+
+def _result_kw_names(fn, field, fields=None):
+    """Names passed as ClusterResult(<field>=...) inside fn (or at the
+    position of that field when the declared order `fields` is given)."""
     out = []
     for c in calls_in(fn):
         if _last(call_name(c)) == 'ClusterResult':
             v = kwarg(c, field)
+            if v is None and fields and field in fields and len(c.args) > fields.index(field) and \
+                    not any(isinstance(a, ast.Starred) for a in c.args):
+                v = c.args[fields.index(field)]
             if isinstance(v, ast.Name) and v.id not in out:
                 out.append(v.id)
     return out
@@ -164,8 +320,8 @@ def _lockstep_iteration(ck, rule, mod):
             ck.missing(rule, '%s: returned value is not a tuple display: %s' % (F, u(r)[:80]))
             continue
         if not elts:
-            ck.bad(rule, mod, r, F, u(r),
-                   'iteration must return (new_center, distances, assignments, center_inds)')
+            ck.missing(rule, '%s: the returned tuple is not (new_center, distances, assignments, center_inds): %s' % (
+                F, u(r)[:80]))
             continue
         cexpr = fi.resolve(elts[0])
         lst = elts[3]
@@ -184,30 +340,45 @@ def _lockstep_iteration(ck, rule, mod):
             ck.missing(rule, '%s: no `%s.append(<index>)` found (list extended in an '
                        'unrecognised way)' % (F, lst.id))
             continue
-        if len(appends) != 1:
+        cfg = fi.cfg
+        app_st = [fi.stmt(a) for a in appends]
+        twice = any(cfg.reachable(a, b) for a in app_st for b in app_st if a is not b) or \
+            any(cfg.reachable(a, a) for a in app_st)
+        if twice:
             ck.bad(rule, mod, r, F, 'append to %s' % lst.id,
-                   'expected exactly one append of the new centre index per iteration, found %d' % len(appends))
+                   'expected exactly one append of the new centre index per iteration, found %d on one path' % len(appends))
             continue
-        a = appends[0]
-        arg = _strip_int(a.args[0]) if a.args else None
+        raises = [x for x in walk_local(fn) if isinstance(x, ast.Raise)]
+        if cfg.reachable('ENTRY', r, avoiding=app_st + raises):
+            ck.bad(rule, mod, r, F, 'append to %s' % lst.id,
+                   'the returned centre is `%s` but on some path to the return no index is appended to `%s`: '
+                   'centres and centre indices go out of step' % (u(cexpr)[:40], lst.id))
+            continue
         idx_use = _strip_int(cexpr.slice)
         n += 1
-        construct = '%s  <->  %s' % (u(cexpr), u(a))
-        bad_detail = ('the index appended to the centre list is not the same value '
-                      'that selected the returned centre frame (stale or recomputed index)')
-        if isinstance(arg, ast.Name) and isinstance(idx_use, ast.Name):
-            ck.check(fi.same_value(arg, idx_use), rule, mod, a, F, construct,
-                     'centre coordinates and appended index come from the same definition of `%s`' % idx_use.id,
-                     bad_detail)
-        elif isinstance(arg, ast.Name):
-            # frame selected by an expression: is it a different function of the appended index?
-            v = classify(fi.expand(idx_use), [arg.id], scope={arg.id})
-            ck.decide(v, rule, mod, a, F, construct, 'frame index is the appended index', bad_detail)
-        elif arg is not None and fi.xu(arg) == fi.xu(idx_use) and not isinstance(arg, ast.Call):
-            ck.ok(rule, mod, a, construct, 'same index expression')
-        else:
-            ck.missing(rule, '%s: cannot relate appended index `%s` to frame index `%s`' % (
-                F, u(arg)[:60], u(idx_use)[:60]))
+        for a in appends:
+            arg = _strip_int(a.args[0]) if a.args else None
+            construct = '%s  <->  %s' % (u(cexpr), u(a))
+            bad_detail = ('the index appended to the centre list is not the same value '
+                          'that selected the returned centre frame (stale or recomputed index)')
+            if isinstance(arg, ast.Name) and isinstance(idx_use, ast.Name):
+                xa, xi = fi.expand(arg), fi.expand(idx_use)
+                same = fi.same_value(arg, idx_use) or _same_root(fi, arg, idx_use) or (
+                    # the same expression over operands that are unchanged in between
+                    not isinstance(xa, ast.Name) and u(canon(_strip_int(xa))) == u(canon(_strip_int(xi)))
+                    and _unchanged_between(fi, names_loaded(xa), fi.stmt(arg), fi.stmt(idx_use)))
+                ck.check(same, rule, mod, a, F, construct,
+                         'centre coordinates and appended index come from the same definition of `%s`' % idx_use.id,
+                         bad_detail)
+            elif isinstance(arg, ast.Name):
+                # frame selected by an expression: is it a different function of the appended index?
+                v = classify(fi.expand(idx_use), [arg.id], scope={arg.id})
+                ck.decide(v, rule, mod, a, F, construct, 'frame index is the appended index', bad_detail)
+            elif arg is not None and fi.xu(arg) == fi.xu(idx_use) and not isinstance(arg, ast.Call):
+                ck.ok(rule, mod, a, construct, 'same index expression')
+            else:
+                ck.missing(rule, '%s: cannot relate appended index `%s` to frame index `%s`' % (
+                    F, u(arg)[:60], u(idx_use)[:60]))
     return n
 
 
@@ -267,7 +438,7 @@ def _lockstep_driver(ck, rule, mod):
     fn = mod.func(F)
     ck.analysed(mod, fn)
     fi = finfo(mod, fn)
-    cls = _result_kw_names(fn, 'centers')
+    cls = _result_kw_names(fn, 'centers', _cluster_result_fields(ck))
     if len(cls) != 1:
         ck.missing(rule, 'kcenters: the list passed as ClusterResult(centers=...) not found uniquely')
         return 0
@@ -277,23 +448,7 @@ def _lockstep_driver(ck, rule, mod):
     n = 0
     for c in its:
         st = fi.stmt(c)
-        unpack = None
-        if isinstance(st, ast.Assign) and st.value is c and len(st.targets) == 1:
-            t = st.targets[0]
-            if isinstance(t, ast.Tuple):
-                unpack = st
-            elif isinstance(t, ast.Name):
-                for s in walk_local(fn):
-                    if isinstance(s, ast.Assign) and isinstance(s.targets[0], ast.Tuple) \
-                            and isinstance(s.value, ast.Name) and s.value.id == t.id \
-                            and fi.defs_of_use(s.value) == {st}:
-                        unpack = s
-        if unpack is None or len(unpack.targets[0].elts) != 4 or \
-                not isinstance(unpack.targets[0].elts[0], ast.Name):
-            ck.missing(rule, 'kcenters: result of the iteration call is not unpacked into 4 names: %s' % u(st)[:100])
-            continue
-        t0 = unpack.targets[0].elts[0]
-        loop = _enclosing(mod, unpack, (ast.While, ast.For), stop=fn)
+        loop = _enclosing(mod, c, (ast.While, ast.For), stop=fn)
         if loop is None:
             ck.missing(rule, 'kcenters: iteration call is not inside a loop')
             continue
@@ -302,21 +457,50 @@ def _lockstep_driver(ck, rule, mod):
         if not apps:
             touched = [s for s in assigns_to(loop, CL)] + [
                 x for x in walk_local(loop) if isinstance(x, ast.Call) and isinstance(x.func, ast.Attribute)
-                and isinstance(x.func.value, ast.Name) and x.func.value.id == CL]
+                and isinstance(x.func.value, ast.Name) and x.func.value.id == CL] + [
+                x for x in walk_local(loop) if isinstance(x, ast.Call) and x is not c and any(
+                    isinstance(a, ast.Name) and a.id == CL for a in x.args)]
             if touched:
                 ck.missing(rule, 'kcenters: `%s` is extended in an unrecognised way' % CL)
                 n -= 1
             else:
-                ck.bad(rule, mod, unpack, F, u(unpack)[:120],
+                ck.bad(rule, mod, st, F, u(st)[:120],
                        'the new centre returned by the iteration is never appended to the '
                        'centre-coordinate list `%s` although its index is appended to the index list' % CL)
             continue
-        good = [a for a in apps if a.args and isinstance(a.args[0], ast.Name)
-                and a.args[0].id == t0.id and fi.defs_of_use(a.args[0]) == {unpack}]
-        ck.check(len(apps) == 1 and len(good) == 1, rule, mod, unpack, F, u(unpack)[:120],
-                 'the centre returned by the iteration is appended to `%s` once per trip' % CL,
-                 'the new centre returned by the iteration must be appended to the '
-                 'centre-coordinate list exactly once per trip')
+        # what is appended: element 0 of the iteration result (tuple unpacking,
+        # indexing of a temporary, copies - by def-use)
+        kinds = []
+        for a in apps:
+            r = _component(fi, a.args[0], fi.stmt(a)) if len(a.args) == 1 and not a.keywords else None
+            kinds.append(r[1] if r is not None and r[0] is c else ('other' if r is None else 'foreign'))
+        cfg = fi.cfg
+        app_st = [fi.stmt(a) for a in apps]
+        twice = any(cfg.reachable(a, b, avoiding=[st]) for a in app_st for b in app_st if a is not b) or \
+            any(cfg.reachable(a, a, avoiding=[st]) for a in app_st)
+        construct = u(st)[:120]
+        if all(k == 0 for k in kinds) and not twice:
+            raises = [x for x in walk_local(fn) if isinstance(x, ast.Raise)]
+            skipped = cfg.reachable(st, 'EXIT', avoiding=app_st + raises)
+            if not skipped:
+                ck.ok(rule, mod, st, construct,
+                      'the centre returned by the iteration is appended to `%s` once per trip' % CL)
+            else:
+                ck.bad(rule, mod, st, F, construct,
+                       'the new centre returned by the iteration is appended to `%s` only on some paths of a trip '
+                       'while its index is appended by the iteration itself on every path' % CL)
+        elif twice and all(k == 0 for k in kinds):
+            ck.bad(rule, mod, st, F, construct,
+                   'the new centre returned by the iteration must be appended to the '
+                   'centre-coordinate list exactly once per trip')
+        elif any(isinstance(k, int) and k != 0 for k in kinds):
+            ck.bad(rule, mod, st, F, construct,
+                   'element %s of the iteration result is appended to the centre-coordinate list `%s`; the new '
+                   'centre is element 0' % ([k for k in kinds if isinstance(k, int) and k != 0][0], CL))
+        else:
+            ck.missing(rule, 'kcenters: value appended to `%s` is not traced to the result of the iteration call: %s' % (
+                CL, '; '.join(u(a)[:50] for a in apps)))
+            n -= 1
     return n
 
 
@@ -339,7 +523,7 @@ def _pam_roles(ck, rule, mod, fn, fi):
     loops = [l for l in walk_local(fn) if isinstance(l, ast.For)
              and any(isinstance(s, ast.Assign) for s in assigns_to(l, Cc))]
     loops = [l for l in loops if _enclosing(mod, l, (ast.For, ast.While), stop=fn) is None]
-    if len(loops) != 1 or not isinstance(loops[0].target, ast.Name):
+    if len(loops) != 1 or _loop_index(loops[0]) is None:
         ck.missing(rule, '%s: per-centre loop (the loop that rebinds `%s`) not found uniquely' % (F, Cc))
         return None
     loop = loops[0]
@@ -361,8 +545,22 @@ def _pam_roles(ck, rule, mod, fn, fi):
            and isinstance(s.value.func, ast.Name) and s.value.func.id == metric
            for t in target_names(s.targets[0])}
     return {'X': X, 'metric': metric, 'I': I, 'D': D, 'A': A, 'Cc': Cc, 'loop': loop, 'SRC': SRC,
-            'cid': loop.target.id, 'N': cN[1].id, 'ND': cD[1].id, 'NA': cA[1].id,
+            'cid': _loop_index(loop), 'N': cN[1].id, 'ND': cD[1].id, 'NA': cA[1].id,
             'accept': {'Cc': cN[0], 'D': cD[0], 'A': cA[0]}, 'params': ps}
+
+
+def _loop_index(loop):
+    """Name of the position variable of `for i in range(..)` /
+    `for i, x in enumerate(..)` (start 0); None otherwise."""
+    t, it = loop.target, loop.iter
+    if isinstance(t, ast.Name):
+        return t.id
+    if isinstance(t, ast.Tuple) and len(t.elts) == 2 and isinstance(t.elts[0], ast.Name) and \
+            isinstance(it, ast.Call) and call_name(it) == 'enumerate' and len(it.args) == 1 and (
+                not it.keywords or (len(it.keywords) == 1 and it.keywords[0].arg == 'start'
+                                    and const_value(it.keywords[0].value) == 0)):
+        return t.elts[0].id
+    return None
 
 
 def _lockstep_pam(ck, rule, modm):
@@ -379,8 +577,10 @@ def _lockstep_pam(ck, rule, modm):
     coord_st = [(s, t) for s, t in subscript_stores(loop, ro['N']) if isinstance(s, ast.Assign)]
     ind_st = [(s, t) for s, t in subscript_stores(loop, ro['I']) if isinstance(s, ast.Assign)]
     if len(coord_st) == 1 and not ind_st and not [s for s in assigns_to(loop, ro['I'])] and not [
-            c for c in calls_in(loop) if isinstance(c.func, ast.Attribute) and isinstance(c.func.value, ast.Name)
-            and c.func.value.id == ro['I']]:
+            c for c in calls_in(loop) if (isinstance(c.func, ast.Attribute) and isinstance(c.func.value, ast.Name)
+                                          and c.func.value.id == ro['I'] and c.func.attr not in ('index', 'count', 'copy'))
+            or (call_name(c) not in ('len', 'range', 'enumerate') and not (call_name(c) or '').startswith(('logger.', 'logging.'))
+                and any(isinstance(a, ast.Name) and a.id == ro['I'] for a in list(c.args) + [k.value for k in c.keywords]))]:
         ck.bad(rule, modm, coord_st[0][0], F, '%s ; %s' % (u(coord_st[0][0]), u(ro['accept']['Cc'])),
                'the accept step replaces the centre coordinates (`%s`) but the index list `%s` is never '
                'updated in the per-centre loop: centres and centre indices go out of step' % (u(ro['accept']['Cc']), ro['I']))
@@ -426,6 +626,21 @@ def _proposal_pair(mod, fn, fi, coord_expr, ind_expr, X):
     cname, iname = coord_expr.id, ind_expr.id
     details = []
     for s in assigns_to(fn, cname):
+        r = _component_def(fi, s, cname)
+        if r is not None and r[1] is not None and _last(call_name(r[0])) == '_propose_new_center_amongst':
+            ks = set()
+            for s2 in assigns_to(fn, iname):
+                r2 = _component_def(fi, s2, iname)
+                if r2 is not None and r2[0] is r[0]:
+                    ks.add(r2[1])
+            if (r[1], ks) == (0, {1}):
+                details.append('(coordinates, index) of one _propose_new_center_amongst call')
+                continue
+            if r[1] == 1 and ks == {0}:
+                return 'bad', ('_propose_new_center_amongst returns (coordinates, index); element 1 is used as '
+                               'the coordinates `%s` and element 0 as the index `%s`' % (cname, iname))
+            return 'unknown', 'index `%s` is not element 1 of the proposal call whose element %s is `%s`' % (
+                iname, r[1], cname)
         if isinstance(s, ast.Assign) and isinstance(s.targets[0], ast.Tuple):
             names = target_names(s.targets[0])
             if isinstance(s.value, ast.Call) and \
@@ -480,7 +695,8 @@ def d1_warmstart(ck):
     fi = finfo(mod, fn)
     ck.analysed(mod, fn)
     cfg = fi.cfg
-    ils, cls = _result_kw_names(fn, 'center_indices'), _result_kw_names(fn, 'centers')
+    flds = _cluster_result_fields(ck)
+    ils, cls = _result_kw_names(fn, 'center_indices', flds), _result_kw_names(fn, 'centers', flds)
     if len(ils) != 1 or len(cls) != 1:
         ck.missing(rule, 'kcenters: names returned as center_indices=/centers= not found uniquely')
         return
@@ -517,23 +733,34 @@ def d1_warmstart(ck):
                        'center_indices[j] would not be the frame of centers[j]' % u(cval)[:60])
             continue
         # warm start: the labels/distances sweep over the same coordinate list
-        sweeps = [a for a in walk_local(fn) if isinstance(a, ast.Assign)
-                  and isinstance(a.targets[0], ast.Tuple) and len(a.targets[0].elts) == 2
-                  and isinstance(a.value, ast.Call)
-                  and _last(call_name(a.value)) == 'assign_to_nearest_center'
-                  and cfg.dominates(a, s) and _same_region(mod, a, s)]
-        if len(sweeps) != 1 or not all(isinstance(e, ast.Name) for e in sweeps[0].targets[0].elts):
-            ck.missing(rule, 'kcenters: warm-start sweep `<labels>, <distances> = assign_to_nearest_center(...)` '
-                       'before `%s` not found' % u(s)[:60])
+        # the sweep: the one assign_to_nearest_center call of this branch that
+        # is evaluated before the index list; its results are located by
+        # def-use (tuple unpacking, indexing of a temporary, copies)
+        sweeps = [c for c in calls_in(fn) if _last(call_name(c)) == 'assign_to_nearest_center'
+                  and fi.stmt(c) is not None and fi.stmt(c) is not s
+                  and cfg.dominates(fi.stmt(c), s) and _same_region(mod, fi.stmt(c), s)]
+        if len(sweeps) != 1:
+            ck.missing(rule, 'kcenters: warm-start sweep `assign_to_nearest_center(...)` '
+                       'before `%s` not found uniquely' % u(s)[:60])
             n -= 1
             continue
-        sw = sweeps[0]
-        a_name, d_name = [e.id for e in sw.targets[0].elts]
+        sw_call = sweeps[0]
+        sw = fi.stmt(sw_call)
+        comp = {}
+        for nm in sorted(_names_bound_in(fn)):
+            r = _component(fi, ast.Name(id=nm, ctx=ast.Load()), s)
+            if r is not None and r[0] is sw_call:
+                comp[nm] = r[1]
+        a_names = sorted(k for k, i in comp.items() if i == 0)
+        d_names = sorted(k for k, i in comp.items() if i == 1)
+        a_name = a_names[0] if a_names else '<labels of the sweep>'
+        d_name = d_names[0] if d_names else '<distances of the sweep>'
         forms = ['list(_F.find_cluster_centers(_A, _D))', 'list(find_cluster_centers(_A, _D))',
                  '_F.find_cluster_centers(_A, _D).tolist()', 'find_cluster_centers(_A, _D).tolist()',
                  '[_E for _E in _F.find_cluster_centers(_A, _D)]', '[_E for _E in find_cluster_centers(_A, _D)]',
                  '[int(_E) for _E in _F.find_cluster_centers(_A, _D)]', '[int(_E) for _E in find_cluster_centers(_A, _D)]']
-        c = classify(fi.expand(v, stop=(a_name, d_name)), forms, scope={a_name, d_name})
+        c = classify(_subst_call_temps(fi, fi.expand(v, stop=tuple(comp)), s, ('find_cluster_centers',)),
+                     forms, scope=set(comp))
         construct = u(s)
         bad = ('the centre indices of a warm start must be ONE frame per label in label order '
                '(list(find_cluster_centers(%s, %s)), which pairs center_indices[j] with init centre j): '
@@ -543,20 +770,20 @@ def d1_warmstart(ck):
             ck.decide(c, rule, mod, s, F, construct, '', bad)
             continue
         b = c[1]
-        if not (isinstance(b['_A'], ast.Name) and isinstance(b['_D'], ast.Name)):
-            ck.missing(rule, 'kcenters: find_cluster_centers operands are not plain names: %s' % construct[:80])
-            n -= 1
-            continue
-        if (b['_A'].id, b['_D'].id) == (d_name, a_name):
+        ra, rd_ = _component(fi, b['_A'], s), _component(fi, b['_D'], s)
+        ka = ra[1] if ra is not None and ra[0] is sw_call else None
+        kd = rd_[1] if rd_ is not None and rd_[0] is sw_call else None
+        if (ka, kd) == (1, 0):
             ck.bad(rule, mod, s, F, construct, 'find_cluster_centers(assignments, distances) is called with '
                    'the two results of the sweep swapped')
             continue
-        if (b['_A'].id, b['_D'].id) != (a_name, d_name):
-            ck.missing(rule, 'kcenters: find_cluster_centers is not applied to the result of the warm-start sweep: %s' % construct[:80])
+        if (ka, kd) != (0, 1):
+            ck.missing(rule, 'kcenters: find_cluster_centers is not applied to the (labels, distances) result of '
+                       'the warm-start sweep: %s' % construct[:80])
             n -= 1
             continue
         # sweep arguments: (data, the coordinate list)
-        call = sw.value
+        call = sw_call
         a0 = arg_or_kw(call, 0, 'trajectory')
         a1 = arg_or_kw(call, 1, 'cluster_centers')
         src = None
@@ -571,7 +798,9 @@ def d1_warmstart(ck):
             n -= 1
             continue
         if not ctr_ok:
-            if isinstance(a1, ast.Name) and a1.id in params(fn) + [IL]:
+            # (a list the returned centre list was built from element by element is
+            # the same centres in the same order: not decided here)
+            if isinstance(a1, ast.Name) and a1.id in (data, IL, a_name, d_name):
                 ck.bad(rule, mod, sw, F, u(sw)[:160], 'the warm-start sweep assigns frames to `%s`, not to the centre '
                        'list `%s` that is returned: labels would not index the reported centres' % (u(a1), CL))
             else:
@@ -623,7 +852,7 @@ def d1_propose(ck):
             ck.missing(rule, '%s: returned value is not a tuple display' % F)
             continue
         if not elts:
-            ck.bad(rule, mod, r, F, u(r), 'must return (coordinates, index)')
+            ck.missing(rule, '%s: the returned tuple is not a (coordinates, index) pair: %s' % (F, u(r)[:80]))
             continue
         c, i = elts
         if isinstance(c, ast.Name):
@@ -803,6 +1032,39 @@ def _max_of(fi, e, D, at, depth=4):
     return 'unknown'
 
 
+def _trip_conditions(mod, fi, loop, stmt):
+    """[(test, polarity, cfg node)]: the conditions known to hold, since the
+    start of the current trip of `loop`, whenever `stmt` (a statement of the
+    loop body) is reached: the test of a while loop and every if-branch inside
+    the loop that dominates the statement (nested ifs, the fall-through side of
+    `if <stop>: break` guard clauses)."""
+    from ..cfg import Assume
+    out = []
+    if isinstance(loop, ast.While) and not (isinstance(loop.test, ast.Constant) and bool(loop.test.value)):
+        out.append((loop.test, True, loop))
+    for nd in fi.cfg.nodes:
+        if isinstance(nd, Assume) and _inside(mod, nd.owner, loop) and fi.cfg.dominates(nd, stmt):
+            out.append((nd.test, nd.polarity, nd))
+    return out
+
+
+def _escapes_unseen(mod, fi, loop, stmt, conds):
+    """Is the loop left (break/return/raise) at a place whose condition is not
+    one of the trip conditions?  Such an exit may carry the stopping rule."""
+    owners = {id(at.owner) for _, _, at in conds if hasattr(at, 'owner')}
+    for x in walk_local(loop):
+        if not isinstance(x, (ast.Break, ast.Return, ast.Raise)):
+            continue
+        # the exit is the whole other arm of a condition that guards the call
+        p = mod.parent.get(x)
+        if isinstance(p, ast.If) and id(p) in owners:
+            arm = p.body if any(x is y for y in p.body) else p.orelse
+            if not any(y is stmt or _inside(mod, stmt, y) for y in arm):
+                continue        # left exactly when that (analysed) condition fails
+        return True
+    return False
+
+
 def d1_no_reselect(ck):
     """kcenters(): a frame that already is a centre is never selected again.
     Every trip makes argmax(distances) the new centre; a centre frame has
@@ -822,63 +1084,78 @@ def d1_no_reselect(ck):
     ck.analysed(mod, fn)
     its = [c for c in calls_in(fn)
            if _callee_names(fi, c) & {'_kcenters_iteration', '_kcenters_iteration_mpi'}]
-    loops = []
+    n = 0
+    seen = set()
     for c in its:
         loop = _enclosing(mod, c, (ast.While, ast.For), stop=fn)
         d = arg_or_kw(c, 2, 'distances')
         if loop is None or not isinstance(d, ast.Name):
             ck.missing(rule, 'kcenters: iteration call outside a loop or distances argument not a plain name: %s' % u(c)[:80])
             continue
-        if not any(l is loop for l, _ in loops):
-            loops.append((loop, d))
-    n = 0
-    for loop, d in loops:
-        if not isinstance(loop, ast.While):
-            ck.missing(rule, 'kcenters: the centre-adding loop is not a while loop: cannot see its stopping rule')
+        call_st = fi.stmt(c)
+        # the conditions under which a trip reaches the iteration call: the
+        # test of the while loop and every branch condition inside the loop
+        # that dominates the call (if/else nesting, `if <stop>: break` guards)
+        conds = _trip_conditions(mod, fi, loop, call_st)
+        key = (id(loop), d.id, tuple(id(x[2]) for x in conds))
+        if key in seen:
             continue
-        if fi.rd.defs_at(loop, d.id) != fi.defs_of_use(d):
-            ck.missing(rule, 'kcenters: `%s` is rebound between the loop test and the iteration call' % d.id)
+        seen.add(key)
+        if not conds:
+            ck.missing(rule, 'kcenters: no condition guards the iteration call in the centre-adding loop: '
+                       'cannot see its stopping rule')
             continue
-        cs = conjuncts(loop.test, True)
-        if cs is None:
-            ck.missing(rule, 'kcenters: loop guard is not a conjunction: %s' % u(loop.test)[:100])
-            continue
-        radius, unknown = [], []
-        for c in cs:
-            less = c.as_less() if hasattr(c, 'as_less') else None
-            if less is None:
-                # a non-ordering conjunct can only restrict the trips further
-                if not hasattr(c, 'as_less') or d.id in names_loaded(c.lhs) | names_loaded(c.rhs):
-                    unknown.append(c)
+        radius, unknown, stale = [], [], []
+        for test, pol, at in conds:
+            cs = conjuncts(test, pol)
+            if cs is None:
+                # a disjunction: it can only restrict the trips further, but it may hide the radius test
+                if d.id in names_loaded(test) or any(
+                        _max_of(fi, x, d.id, at) != 'no' for x in walk_expr(test) if isinstance(x, ast.Name)):
+                    unknown.append(u(test)[:60])
                 continue
-            small, strict, big = less
-            kb, ks = _max_of(fi, big, d.id, loop), _max_of(fi, small, d.id, loop)
-            if kb == 'yes' and ks == 'no':
-                radius.append((c, strict, True))
-            elif ks == 'yes' and kb == 'no':
-                radius.append((c, strict, False))
-            elif 'unknown' in (kb, ks) or 'yes' in (kb, ks):
-                unknown.append(c)
+            for cj in cs:
+                less = cj.as_less() if hasattr(cj, 'as_less') else None
+                if less is None:
+                    # a non-ordering conjunct can only restrict the trips further
+                    if not hasattr(cj, 'as_less') or d.id in names_loaded(cj.lhs) | names_loaded(cj.rhs):
+                        unknown.append(str(cj))
+                    continue
+                small, strict, big = less
+                kb, ks = _max_of(fi, big, d.id, at), _max_of(fi, small, d.id, at)
+                if 'yes' in (kb, ks) and fi.rd.defs_at(at, d.id) != fi.defs_of_use(d):
+                    stale.append(cj)        # the array is rebound between this test and the call
+                    continue
+                if kb == 'yes' and ks == 'no':
+                    radius.append((cj, strict, True))
+                elif ks == 'yes' and kb == 'no':
+                    radius.append((cj, strict, False))
+                elif 'unknown' in (kb, ks) or 'yes' in (kb, ks):
+                    unknown.append(str(cj))
         n += 1
+        shown = ' and '.join(('' if pol else 'not ') + '(%s)' % u(t)[:60] for t, pol, _ in conds)
         good = [r for r in radius if r[1] and r[2]]
         if good:
             ck.ok(rule, mod, loop, str(good[0][0]),
                   'a trip is taken only while the largest distance is strictly above the cutoff: '
                   'the frame selected by argmax is not yet a centre')
         elif radius:
-            c, strict, right = radius[0]
-            ck.bad(rule, mod, loop, F, str(c),
+            cj, strict, right = radius[0]
+            ck.bad(rule, mod, loop, F, str(cj),
                    'the loop guard lets a trip happen when the largest distance is %s the cutoff; with the default '
                    'cutoff 0 that is the state in which every frame is at distance 0 from its centre (more centres '
                    'requested than distinct frames): argmax then selects a frame that already is a centre, which is '
                    'appended again as a further centre although it keeps its old label' % (
                        'equal to' if right else 'below'))
-        elif unknown or any(isinstance(x, (ast.Break, ast.Return, ast.Raise)) for x in walk_local(loop)):
+        elif stale:
+            ck.missing(rule, 'kcenters: `%s` is rebound between the radius test `%s` and the iteration call' % (d.id, stale[0]))
+            n -= 1
+        elif unknown or _escapes_unseen(mod, fi, loop, call_st, conds):
             # (a loop left from inside its body may test the radius there)
-            ck.missing(rule, 'kcenters: radius conjunct of the loop guard not recognised: %s' % u(loop.test)[:120])
+            ck.missing(rule, 'kcenters: radius conjunct of the trip condition not recognised: %s' % shown[:160])
             n -= 1
         else:
-            ck.bad(rule, mod, loop, F, u(loop.test)[:160],
+            ck.bad(rule, mod, loop, F, shown[:160],
                    'the loop guard has no test `cutoff < max(%s)`: trips continue when every frame already is at '
                    'distance 0 from its centre, and argmax re-selects an existing centre frame' % d.id)
     ck.floor(rule, n, 1, 'centre-adding loops with a strict radius test')
@@ -911,18 +1188,31 @@ def d2_argmin_branch(ck):
             return x.func.attr, u(x.func.value)
         if isinstance(x, ast.Call) and _last(call_name(x)) in ('amin', 'amax', 'nanmin', 'nanargmin') and x.args:
             return _last(call_name(x)), u(x.args[0])
+        # V[V.argmin()] is the minimum of V (same for max)
+        if isinstance(x, ast.Subscript):
+            inner = reduction(x.slice)
+            if inner is not None and inner[0] in ('argmin', 'argmax') and inner[1] == u(x.value):
+                return inner[0][3:], inner[1]
         return None
 
     n = 0
     for loop in [l for l in walk_local(fn) if isinstance(l, ast.For)]:
-        sa = [(s, t, reduction(s.value)) for s, t in subscript_stores(loop, A) if isinstance(s, ast.Assign)]
-        sd = [(s, t, reduction(s.value)) for s, t in subscript_stores(loop, D) if isinstance(s, ast.Assign)]
-        sa = [x for x in sa if x[2] is not None]
-        sd = [x for x in sd if x[2] is not None]
+        if any(isinstance(x, ast.For) for x in walk_local(loop) if x is not loop):
+            continue
+        alla = [(s, t, reduction(s.value)) for s, t in subscript_stores(loop, A) if isinstance(s, ast.Assign)]
+        alld = [(s, t, reduction(s.value)) for s, t in subscript_stores(loop, D) if isinstance(s, ast.Assign)]
+        sa = [x for x in alla if x[2] is not None]
+        sd = [x for x in alld if x[2] is not None]
         if not sa and not sd:
             continue
         n += 1
         if len(sa) != 1 or len(sd) != 1:
+            if (not sa and alla) or (not sd and alld) or len(sa) > 1 or len(sd) > 1:
+                other = [x for x in alla + alld if x[2] is None]
+                ck.missing(rule, '%s: per-frame branch: value stored by `%s` is not a recognised reduction' % (
+                    F, u((other or alla + alld)[0][0])[:80]))
+                n -= 1
+                continue
             ck.bad(rule, mod, loop, F, u(loop)[:120],
                    'per-frame branch must store both argmin (label) and min (distance)')
             continue
@@ -951,6 +1241,69 @@ def _guards(mod, fn, stmt):
     return out
 
 
+def _eval3(e, env):
+    """Kleene evaluation of a boolean test: names in `env` have the given
+    truth value, every other atom is unknown (None)."""
+    if isinstance(e, ast.Constant):
+        return bool(e.value)
+    if isinstance(e, ast.Name):
+        return env.get(e.id)
+    if isinstance(e, ast.UnaryOp) and isinstance(e.op, ast.Not):
+        v = _eval3(e.operand, env)
+        return None if v is None else (not v)
+    if isinstance(e, ast.BoolOp):
+        vs = [_eval3(x, env) for x in e.values]
+        if isinstance(e.op, ast.And):
+            return False if False in vs else (None if None in vs else True)
+        return True if True in vs else (None if None in vs else False)
+    if isinstance(e, ast.Compare) and len(e.ops) == 1 and isinstance(e.ops[0], (ast.Is, ast.IsNot, ast.Eq, ast.NotEq)) \
+            and isinstance(e.left, ast.Name) and e.left.id in env and isinstance(e.comparators[0], ast.Constant) \
+            and isinstance(e.comparators[0].value, bool):
+        same = env[e.left.id] == e.comparators[0].value
+        return same if isinstance(e.ops[0], (ast.Is, ast.Eq)) else not same
+    return None
+
+
+def _reach3(guards, env):
+    """Can a statement under the if-guards [(test, polarity)] be reached?
+    True: every guard certainly lets it through; False: some guard certainly
+    blocks it; None: depends on atoms the environment does not fix."""
+    vs = []
+    for t, pol in guards:
+        v = _eval3(t, env)
+        vs.append(None if v is None else (v == pol))
+    return False if False in vs else (None if None in vs else True)
+
+
+_ALLOCATORS = ('full', 'empty', 'zeros', 'ones', 'full_like', 'empty_like', 'zeros_like', 'ones_like')
+
+
+def _not_measured(fi, v, cur):
+    """The value is not a measurement against the new centre: a copy / alias of
+    the current distances `cur`, or a freshly allocated constant array."""
+    t = fi.xu(v)
+    if t in ('%s.copy()' % cur, cur, 'copy.copy(%s)' % cur, 'copy.deepcopy(%s)' % cur, '%s[:]' % cur,
+             'np.asarray(%s)' % cur, 'np.asanyarray(%s)' % cur, '%s.astype(%s.dtype)' % (cur, cur),
+             '%s + 0' % cur, '%s * 1' % cur, '+%s' % cur):
+        return True
+    x = canon(fi.expand(v))
+    return isinstance(x, ast.Call) and (call_name(x) or '').startswith(('np.', 'numpy.')) and \
+        _last(call_name(x)) in _ALLOCATORS
+
+
+def _fully_overwritten(fi, fn, site, name, before):
+    """Every cell of the array bound at `site` is overwritten (`name[:] = ...`
+    / `name[...] = ...`) on every path from there to `before`."""
+    for st, t in subscript_stores(fn, name):
+        sl = t.slice
+        full = (isinstance(sl, ast.Slice) and sl.lower is None and sl.upper is None and sl.step is None) or \
+            (isinstance(sl, ast.Constant) and sl.value is Ellipsis)
+        if full and isinstance(st, ast.Assign) and fi.cfg.dominates(site, st) and fi.cfg.dominates(st, before) \
+                and fi.cfg.postdominates(st, site):
+            return True
+    return False
+
+
 def d2_shortcut_optin(ck):
     """The triangle-inequality shortcut makes the candidate array a COPY of the
     current distances and recomputes only some frames; frames it skips can
@@ -972,9 +1325,8 @@ def d2_shortcut_optin(ck):
             new, cur = inst['new'], inst['cur']
             copies = [s for s in assigns_to(fn, new) if isinstance(s, ast.Assign)
                       and fi.def_value(s, new) is not None
-                      and fi.xu(fi.def_value(s, new)) in ('%s.copy()' % cur, cur, 'copy.copy(%s)' % cur,
-                                                         'copy.deepcopy(%s)' % cur, '%s[:]' % cur,
-                                                         'np.asarray(%s)' % cur)]
+                      and _not_measured(fi, fi.def_value(s, new), cur)
+                      and not _fully_overwritten(fi, fn, s, new, inst['mask_stmt'])]
             if not copies:
                 ck.ok(rule, mod, inst['mask_stmt'], '%s: candidate `%s`' % (F, new),
                       'no shortcut: the candidate array is never a copy of the current distances')
@@ -982,28 +1334,43 @@ def d2_shortcut_optin(ck):
                 continue
             for s in copies:
                 n += 1
-                gs = _guards(mod, fn, s)
+                gs = [(t, pol) for t, pol in _guards(mod, fn, s) if t is not None]
+                # candidate flags: parameters used as truth values in the guards, not rebound before
+                cands = []
+                for t, _ in gs:
+                    for x in walk_expr(t):
+                        if isinstance(x, ast.Name) and x.id in ps and x.id not in cands and \
+                                fi.defs_of_use(x) == {'PARAM'}:
+                            cands.append(x.id)
+                # opt-in by p: with p false the statement cannot be reached, whatever the other atoms are
+                optin = [p for p in cands if _reach3(gs, {p: False}) is False]
                 flag = None
-                opaque = False
-                for test, pol in gs:
-                    if test is None:
-                        continue
-                    cj = conjuncts(test, pol)
-                    if cj is None:
-                        opaque = True
-                        continue
-                    for c in cj:
-                        if isinstance(c, tuple) and c[0] == 'expr' and c[2] is True and \
-                                isinstance(c[1], ast.Name) and c[1].id in ps and \
-                                fi.defs_of_use(c[1]) == {'PARAM'}:
-                            flag = c[1].id
+                for p in optin:
+                    d0 = param_default(fn, p)
+                    if flag is None or (isinstance(d0, ast.Constant) and not d0.value):
+                        flag = p
+                        if isinstance(d0, ast.Constant) and not d0.value:
+                            break
                 if flag is None:
-                    if opaque or any(t is not None for t, _ in gs):
-                        ck.missing(rule, '%s: guard of the shortcut `%s` is not a conjunction containing a flag parameter' % (F, u(s)[:60]))
-                        n -= 1
+                    # reachable when every option keeps its default value?
+                    env = {}
+                    for p in cands:
+                        d0 = param_default(fn, p)
+                        if isinstance(d0, ast.Constant):
+                            env[p] = bool(d0.value)
+                    if _reach3(gs, env) is True:
+                        ck.bad(rule, mod, s, F, u(s),
+                               'the candidate distances start as `%s` and only part of the frames is re-measured '
+                               'against the new centre on a path that is taken %s: a frame that is not re-measured '
+                               'can never pass the strict commit test, so it keeps its centre although the new one '
+                               'may be strictly closer (exact only under the triangle inequality, which has to be '
+                               'opted into)' % (u(fi.def_value(s, new))[:40],
+                                                'unconditionally' if not gs else 'with every option at its default (%s)' % (
+                                                    ', '.join('%s=%s' % kv for kv in sorted(env.items())) or 'no flag involved')))
                     else:
-                        ck.bad(rule, mod, s, F, u(s), 'the triangle-inequality shortcut (candidate = copy of the current '
-                               'distances) is taken unconditionally: it is exact only for true metrics')
+                        ck.missing(rule, '%s: guard of the shortcut `%s` does not depend on a flag parameter in a '
+                                   'recognised way' % (F, u(s)[:60]))
+                        n -= 1
                     continue
                 flags[F] = flag
                 dflt = param_default(fn, flag)
@@ -1129,6 +1496,18 @@ def _pam_masks(ck, rule, mod, fn, fi, ro):
     return out
 
 
+def _const_alloc(fi, v):
+    """`np.<allocator>(...)` possibly shifted/scaled by constants: every cell
+    holds the same sentinel value."""
+    x = canon(fi.expand(v))
+    while isinstance(x, ast.BinOp) and (const_value(x.right) is not None or const_value(x.left) is not None):
+        x = x.left if const_value(x.right) is not None else x.right
+    while isinstance(x, ast.Call) and isinstance(x.func, ast.Attribute) and x.func.attr == 'astype':
+        x = x.func.value
+    return isinstance(x, ast.Call) and (call_name(x) or '').startswith(('np.', 'numpy.')) and \
+        _last(call_name(x)) in _ALLOCATORS
+
+
 def d3_pam_three_way(ck):
     rule = 'C01.D3.pam'
     mod = ck.repo.mod(KM)
@@ -1156,6 +1535,24 @@ def d3_pam_three_way(ck):
                      m, 'labels' if e['a'] else 'distances',
                      'distances' if e['a'] else 'labels'))
     trees = {k: e for k, e in masks.items() if e['a'] and e['d']}
+    # the truth-table rules below speak about ALL writers of the candidate
+    # arrays: each must start from a constant (sentinel) allocation inside the
+    # per-centre loop and be written by masked stores only
+    for nm in (ro['NA'], ro['ND']):
+        defs = [x for x in assigns_to(ro['loop'], nm)]
+        vals = [fi.def_value(x, nm) if isinstance(x, ast.Assign) else None for x in defs]
+        if len(defs) != 1 or vals[0] is None or not _const_alloc(fi, vals[0]):
+            ck.missing(rule + '.exhaustive', '%s: candidate array `%s` is not one constant allocation per trip followed by '
+                       'masked stores (%d definitions in the per-centre loop): the mask family is not the whole update' % (
+                           F, nm, len(defs)))
+            return
+        others = [c for c in calls_in(ro['loop']) if _last(call_name(c)) in ('copyto', 'putmask', 'place', 'put')
+                  and c.args and isinstance(c.args[0], ast.Name) and c.args[0].id == nm] + [
+                  c for c in calls_in(ro['loop']) if any(k.arg == 'out' and isinstance(k.value, ast.Name)
+                                                         and k.value.id == nm for k in c.keywords)]
+        if others:
+            ck.missing(rule + '.exhaustive', '%s: candidate array `%s` is also written by %s' % (F, nm, u(others[0])[:60]))
+            return
     # (2) exhaustiveness of the mask family over its atoms
     keys = []
     for k, e in trees.items():
@@ -1252,6 +1649,17 @@ def _paired_sources(mod, fn, fi, ro, key, e, av, dv):
                            'found (%s[%s], %s[%s])' % (A, m, D, m, a_src, m, d_src, m)), None
         return 'unknown', 'sources %s/%s of mask %s not recognised' % (a_src, d_src, m), None
     # case C: both from one assign_to_nearest_center call
+    ca, cd = _component(fi, av, fi.stmt(av)), _component(fi, dv, fi.stmt(dv))
+    if ca is not None and cd is not None and ca[0] is cd[0] and \
+            _last(call_name(ca[0])) == 'assign_to_nearest_center':
+        call = ca[0]
+        if (ca[1], cd[1]) == (1, 0):
+            return 'bad', ('assign_to_nearest_center returns (assignments, distances); element 1 is stored as '
+                           'labels and element 0 as distances under mask %s' % m), None
+        if (ca[1], cd[1]) != (0, 1):
+            return 'bad', ('labels=%s / distances=%s are not the (assignments, distances) pair returned by %s' % (
+                u(av)[:30], u(dv)[:30], u(call)[:60])), None
+        return _sweep_args(fi, ro, key, m, call)
     if isinstance(av, ast.Name) and isinstance(dv, ast.Name):
         da, dd = fi.defs_of_use(av), fi.defs_of_use(dv)
         if len(da) == 1 and da == dd:
@@ -1261,24 +1669,7 @@ def _paired_sources(mod, fn, fi, ro, key, e, av, dv):
                     _last(call_name(site.value)) == 'assign_to_nearest_center':
                 names = target_names(site.targets[0])
                 if names == [av.id, dv.id]:
-                    call = site.value
-                    data = arg_or_kw(call, 0, 'trajectory')
-                    ctrs = arg_or_kw(call, 1, 'cluster_centers')
-                    if data is None or ctrs is None:
-                        return 'unknown', 'arguments of %s not recognised' % u(call)[:80], None
-                    dx = canon(fi.expand(data, strict=False))
-                    if not (isinstance(dx, ast.Subscript) and u(dx.value) == ro['X']):
-                        return 'unknown', 'frames recomputed by %s not recognised' % u(call)[:80], None
-                    if u(dx.slice) != key:
-                        return 'bad', ('ambiguous frames are recomputed for %s but stored '
-                                       'under mask %s' % (u(data), m)), None
-                    if isinstance(ctrs, ast.Name) and ctrs.id == ro['Cc']:
-                        return 'bad', ('ambiguous frames are assigned against the CURRENT centre list `%s`, not the '
-                                       'candidate list `%s` that contains the proposal' % (ro['Cc'], ro['N'])), None
-                    if not (isinstance(ctrs, ast.Name) and ctrs.id == ro['N']):
-                        return 'unknown', 'centre list `%s` of the ambiguity sweep not recognised' % u(ctrs)[:60], None
-                    return 'ok', ('(labels, distances) unpacked in order from one '
-                                  'assign_to_nearest_center(%s, %s) call' % (u(data), u(ctrs))), None
+                    return _sweep_args(fi, ro, key, m, site.value)
                 if names == [dv.id, av.id]:
                     return 'bad', ('assign_to_nearest_center returns (assignments, distances); '
                                    'unpacked as %s but stored as labels=%s distances=%s' % (
@@ -1294,6 +1685,28 @@ def _paired_sources(mod, fn, fi, ro, key, e, av, dv):
     return 'unknown', 'unrecognised source pair (%s, %s) for mask %s' % (u(av), u(dv), m), None
 
 
+def _sweep_args(fi, ro, key, m, call):
+    """The ambiguity sweep measures exactly the frames of the mask it is
+    stored under, against the CANDIDATE centre list."""
+    data = arg_or_kw(call, 0, 'trajectory')
+    ctrs = arg_or_kw(call, 1, 'cluster_centers')
+    if data is None or ctrs is None:
+        return 'unknown', 'arguments of %s not recognised' % u(call)[:80], None
+    dx = canon(fi.expand(data, strict=False))
+    if not (isinstance(dx, ast.Subscript) and u(dx.value) == ro['X']):
+        return 'unknown', 'frames recomputed by %s not recognised' % u(call)[:80], None
+    if u(dx.slice) != key:
+        return 'bad', ('ambiguous frames are recomputed for %s but stored '
+                       'under mask %s' % (u(data), m)), None
+    if isinstance(ctrs, ast.Name) and ctrs.id == ro['Cc']:
+        return 'bad', ('ambiguous frames are assigned against the CURRENT centre list `%s`, not the '
+                       'candidate list `%s` that contains the proposal' % (ro['Cc'], ro['N'])), None
+    if not (isinstance(ctrs, ast.Name) and ctrs.id == ro['N']):
+        return 'unknown', 'centre list `%s` of the ambiguity sweep not recognised' % u(ctrs)[:60], None
+    return 'ok', ('(labels, distances) taken in order from one '
+                  'assign_to_nearest_center(%s, %s) call' % (u(data), u(ctrs))), None
+
+
 def d3_pam_case_a(ck, mod, fn, fi, ro, srcs):
     """The candidate distances compared by the 'closer to proposal' mask are
     metric(X, proposal), the per-centre loop visits every centre, and the
@@ -1304,6 +1717,8 @@ def d3_pam_case_a(ck, mod, fn, fi, ro, srcs):
     loop, cid = ro['loop'], ro['cid']
     I, Cc, N, X, metric = ro['I'], ro['Cc'], ro['N'], ro['X'], ro['metric']
     forms = ['range(len(%s))' % I, 'range(0, len(%s))' % I, 'range(len(%s))' % Cc, 'range(0, len(%s))' % Cc]
+    if isinstance(loop.target, ast.Tuple):
+        forms = ['enumerate(%s)' % I, 'enumerate(%s)' % Cc, 'enumerate(%s, start=0)' % I, 'enumerate(%s, start=0)' % Cc]
     v = classify(fi.expand(loop.iter), forms, scope={I, Cc})
     ck.decide(v, rule, mod, loop, F, 'for %s in %s' % (cid, u(loop.iter)),
               'one update per current centre', 'per-centre loop must range over len(%s)' % I)
@@ -1354,6 +1769,15 @@ _ROLE_TOKENS = {'center_indices': ('center_ind', 'ctr_ind', 'medoid_ind', 'pred_
                 'centers': ('centers', 'medoid_coords', 'centers_')}
 
 
+# return order of the in-package producers (None: not one of the four fields)
+_RETURN_ROLES = {
+    'assign_to_nearest_center': ('assignments', 'distances'),
+    '_kcenters_iteration': (None, 'distances', 'assignments', 'center_indices'),
+    '_kcenters_iteration_mpi': (None, 'distances', 'assignments', 'center_indices'),
+    '_kmedoids_pam_update': ('center_indices', 'distances', 'assignments', 'centers'),
+}
+
+
 def _roles_of_text(txt):
     return {f for f, toks in _ROLE_TOKENS.items() if any(t in txt for t in toks)}
 
@@ -1361,6 +1785,41 @@ def _roles_of_text(txt):
 def _role_verdict(fi, field, v):
     """Role typing of a value passed as ClusterResult(<field>=v): by the
     vocabulary of its text, then of what it is computed from.  -> ok/bad/unknown"""
+    # by def-use first: element k of the result of a producer whose return
+    # order is fixed (checked by D1/D4 at the producer), or a field of a result
+    try:
+        r = _component(fi, v, fi.stmt(v))
+    except Exception:
+        r = None
+    def producer_role(r):
+        if r is None or not isinstance(r[1], int):
+            return None
+        order = _RETURN_ROLES.get(_last(call_name(r[0])))
+        if order is None and isinstance(r[0].func, (ast.Name, ast.IfExp)):
+            orders = {_RETURN_ROLES.get(x) for x in _callee_names(fi, r[0])}
+            order = orders.pop() if len(orders) == 1 else None
+        if order is not None and r[1] < len(order):
+            return order[r[1]]
+        return None
+    role = producer_role(r)
+    if role is not None:
+        return 'ok' if role == field else 'bad'
+    if isinstance(v, ast.Name):
+        # several reaching definitions (initialisation + loop-carried update):
+        # every one that is an element of a producer's result must agree
+        try:
+            sites = [x for x in fi.defs_of_use(v) if x not in ('PARAM', 'UNBOUND')]
+        except Exception:
+            sites = []
+        roles = {producer_role(_component_def(fi, x, v.id)) for x in sites} - {None}
+        if len(roles) == 1:
+            return 'ok' if roles == {field} else 'bad'
+        if len(roles) > 1:
+            return 'bad'
+    x = fi.resolve(v) if isinstance(v, ast.Name) else v
+    if isinstance(x, ast.Attribute) and x.attr in _ROLE_TOKENS and isinstance(x.value, ast.Name) and \
+            'result' in x.value.id.lower():
+        return 'ok' if x.attr == field else 'bad'
     texts = [u(v)]
     try:
         texts.append(u(fi.expand(v)))
@@ -1405,15 +1864,15 @@ def d4_result_fields(ck):
                 found.add((rel, q))
                 ck.analysed(mod, fn)
                 fi = finfo(mod, fn)
-                if c.args:
-                    ck.bad(rule, mod, c, q, u(c)[:160],
-                           'ClusterResult must be built with keywords: positional '
-                           'construction depends on the field order %s' % fields)
+                if any(k.arg is None for k in c.keywords) or any(isinstance(a, ast.Starred) for a in c.args):
+                    ck.missing(rule, '%s: ClusterResult(*.../**...) cannot be role-checked' % q)
                     continue
-                if any(k.arg is None for k in c.keywords):
-                    ck.missing(rule, '%s: ClusterResult(**...) cannot be role-checked' % q)
+                if len(c.args) > len(fields) or set(fields[:len(c.args)]) & {k.arg for k in c.keywords}:
+                    ck.bad(rule, mod, c, q, u(c)[:160], 'ClusterResult is built with more values than the fields %s' % fields)
                     continue
-                kws = {k.arg: k.value for k in c.keywords}
+                # positional values take the declared field order
+                kws = dict(zip(fields, c.args))
+                kws.update({k.arg: k.value for k in c.keywords})
                 ok = set(kws) == set(fields)
                 bad_roles, unknown = [], []
                 for f, v in kws.items():
@@ -1459,51 +1918,87 @@ def d4_result_fields(ck):
     for rel in (KC, KM, HY, CU):
         mod = ck.repo.mod(rel)
         for q, fn in mod.functions.items():
+            sweeps = [c for c in calls_in(fn) if _last(call_name(c)) == 'assign_to_nearest_center']
+            if not sweeps:
+                continue
+            fi = finfo(mod, fn)
+            # names bound to element 0 / 1 of the result of each call (tuple
+            # unpacking, indexing of a temporary, copies)
+            bound = {}
             for s in walk_local(fn):
-                if isinstance(s, ast.Assign) and isinstance(s.value, ast.Call) and \
-                        _last(call_name(s.value)) == 'assign_to_nearest_center' and \
-                        isinstance(s.targets[0], ast.Tuple) and len(s.targets[0].elts) == 2:
-                    a, d = [u(e) for e in s.targets[0].elts]
-                    n2 += 1
-                    ra, rd = _roles_of_text(a), _roles_of_text(d)
-                    if 'assignments' in ra and 'distances' in rd:
-                        ck.ok(rule + '.unpack', mod, s, u(s)[:160], '(assignments, distances) order respected')
-                    elif 'distances' in ra or 'assignments' in rd:
-                        ck.bad(rule + '.unpack', mod, s, q, u(s)[:160],
+                if not isinstance(s, ast.Assign):
+                    continue
+                for nm in {x for t in s.targets for x in target_names(t)}:
+                    r = _component_def(fi, s, nm)
+                    if r is not None and r[1] in (0, 1) and any(r[0] is c for c in sweeps):
+                        bound.setdefault(id(r[0]), {0: [], 1: []})[r[1]].append((nm, s))
+            for c in sweeps:
+                b = bound.get(id(c))
+                if not b or not (b[0] or b[1]):
+                    continue
+                n2 += 1
+                st = fi.stmt(c)
+                a_names, d_names = sorted({x for x, _ in b[0]}), sorted({x for x, _ in b[1]})
+                a, d = ', '.join(a_names) or '-', ', '.join(d_names) or '-'
+                ra = set().union(*[_roles_of_text(x) for x in a_names]) if a_names else set()
+                rd = set().union(*[_roles_of_text(x) for x in d_names]) if d_names else set()
+                if ('distances' in ra and 'assignments' not in ra) or ('assignments' in rd and 'distances' not in rd):
+                    ck.bad(rule + '.unpack', mod, st, q, u(st)[:160],
+                           'assign_to_nearest_center returns (assignments, distances); '
+                           'unpacked into (%s, %s)' % (a, d))
+                elif ('assignments' in ra or not a_names) and ('distances' in rd or not d_names) and \
+                        'distances' not in ra and 'assignments' not in rd:
+                    ck.ok(rule + '.unpack', mod, st, u(st)[:160], '(assignments, distances) order respected')
+                else:
+                    verdict = _unpack_by_use(mod, fn, fi, b)
+                    if verdict == 'ok':
+                        ck.ok(rule + '.unpack', mod, st, u(st)[:160], '(labels, distances) order respected (by use)')
+                    elif verdict == 'bad':
+                        ck.bad(rule + '.unpack', mod, st, q, u(st)[:160],
                                'assign_to_nearest_center returns (assignments, distances); '
-                               'unpacked into (%s, %s)' % (a, d))
+                               'unpacked into (%s, %s) whose uses are the other way round' % (a, d))
                     else:
-                        verdict = _unpack_by_use(mod, fn, finfo(mod, fn), s)
-                        if verdict == 'ok':
-                            ck.ok(rule + '.unpack', mod, s, u(s)[:160], '(labels, distances) order respected (by use)')
-                        elif verdict == 'bad':
-                            ck.bad(rule + '.unpack', mod, s, q, u(s)[:160],
-                                   'assign_to_nearest_center returns (assignments, distances); '
-                                   'unpacked into (%s, %s) whose uses are the other way round' % (a, d))
-                        else:
-                            ck.missing(rule + '.unpack', '%s: roles of (%s, %s) cannot be derived' % (q, a, d))
+                        ck.missing(rule + '.unpack', '%s: roles of (%s, %s) cannot be derived' % (q, a, d))
     ck.floor(rule + '.unpack', n2, 5, 'unpackings of assign_to_nearest_center')
-    # return order of assign_to_nearest_center itself: (label array, running-minimum array)
-    F = 'assign_to_nearest_center'
-    fna = modu.func(F)
-    fia = finfo(modu, fna)
-    inst = find_running_min_commits(modu, fna)
-    lab = cur = None
-    for i in inst:
-        cur = i['cur']
-        for st, t in i['stores']:
-            if u(t.value) != cur:
-                lab = u(t.value)
-    if lab is None or cur is None:
-        ck.missing(rule + '.unpack', '%s: label / running-minimum arrays not identified' % F)
-        return
-    for r, elts in _ret_tuples(fia, fna, 2):
-        if elts is None:
-            ck.missing(rule + '.unpack', '%s: returned value is not a tuple display' % F)
+    # return order of the producers themselves: the label array and the
+    # running-minimum array of their commit sit at the documented positions
+    for mod_, F, arity, ipos_lab, ipos_cur in ((modu, 'assign_to_nearest_center', 2, 0, 1),
+                                              (ck.repo.mod(KC), '_kcenters_iteration', 4, 2, 1),
+                                              (ck.repo.mod(KC), '_kcenters_iteration_mpi', 4, 2, 1)):
+        fna = mod_.func(F)
+        fia = finfo(mod_, fna)
+        inst = find_running_min_commits(mod_, fna)
+        lab = cur = None
+        for i in inst:
+            cur = i['cur']
+            for st, t in i['stores']:
+                if u(t.value) != cur:
+                    lab = u(t.value)
+        if lab is None or cur is None:
+            ck.missing(rule + '.unpack', '%s: label / running-minimum arrays not identified' % F)
             continue
-        ok = bool(elts) and [u(e) for e in elts] == [lab, cur]
-        ck.check(ok, rule + '.unpack', modu, r, F, u(r),
-                 'returns (labels, distances)', 'return order changed: must be (%s, %s)' % (lab, cur))
+        for r, elts in _ret_tuples(fia, fna, arity):
+            if elts is None:
+                ck.missing(rule + '.unpack', '%s: returned value is not a tuple display' % F)
+                continue
+            if not elts:
+                ck.missing(rule + '.unpack', '%s: returned tuple does not have %d elements' % (F, arity))
+                continue
+            got = [fia.xu(e) for e in elts]
+            want = dict(((ipos_lab, lab), (ipos_cur, cur)))
+            if all(got[k] == v for k, v in want.items()):
+                ck.ok(rule + '.unpack', mod_, r, u(r), 'labels at position %d, distances at position %d' % (ipos_lab, ipos_cur))
+            elif got[ipos_lab] == cur and got[ipos_cur] == lab:
+                ck.bad(rule + '.unpack', mod_, r, F, u(r),
+                       'return order changed: the label array `%s` must be element %d and the distance array `%s` '
+                       'element %d of the result' % (lab, ipos_lab, cur, ipos_cur))
+            elif all(isinstance(elts[k], ast.Name) for k in want) and \
+                    {got[ipos_lab], got[ipos_cur]} <= set(params(fna)) | {lab, cur}:
+                ck.bad(rule + '.unpack', mod_, r, F, u(r),
+                       'return order changed: must carry `%s` at position %d and `%s` at position %d' % (
+                           lab, ipos_lab, cur, ipos_cur))
+            else:
+                ck.missing(rule + '.unpack', '%s: returned (labels, distances) are not the arrays of the commit: %s' % (F, u(r)[:80]))
 
 
 _WIDE_INT = {'int', 'np.int64', 'np.intp', 'np.int_', 'np.longlong', 'np.uint64', 'np.uintp',
@@ -1682,20 +2177,115 @@ def d4_index_dtype(ck):
     ck.floor(rule, n, 1, 'label-array allocations feeding find_cluster_centers')
 
 
-def _unpack_by_use(mod, fn, fi, s):
-    """Roles of an (a, d) unpacking by what the two names are passed as."""
-    a, d = [e.id if isinstance(e, ast.Name) else None for e in s.targets[0].elts]
-    if a is None or d is None:
-        return 'unknown'
+def d4_fit_result(ck):
+    """Estimator form: `fit(X, ...)` stores, on every path on which it returns,
+    the result of the function form applied to ITS data argument.  A path
+    that returns without a new `self.result_` (early return, memo of an
+    earlier fit) leaves labels_/distances_/center_indices_/centers_ describing
+    other data: reported centre indices are then not frames of X."""
+    rule = 'C01.D4.fit-result'
+    n = 0
+    for rel, q, entry in ((KC, 'KCenters.fit', 'kcenters'), (KM, 'KMedoids.fit', 'kmedoids'),
+                          (HY, 'KHybrid.fit', 'hybrid')):
+        mod = ck.repo.mod(rel)
+        fn = mod.functions.get(q)
+        if fn is None:
+            ck.missing(rule, '%s not found' % q)
+            continue
+        ps = params(fn)
+        if len(ps) < 2:
+            ck.missing(rule, '%s: data parameter not found' % q)
+            continue
+        me, X = ps[0], ps[1]
+        fi = finfo(mod, fn)
+        ck.analysed(mod, fn)
+        cfg = fi.cfg
+        stores = [st for st in walk_local(fn) if isinstance(st, ast.Assign) and any(
+            isinstance(t, ast.Attribute) and t.attr == 'result_' and isinstance(t.value, ast.Name)
+            and t.value.id == me for t in st.targets)]
+        indirect = [c for c in calls_in(fn) if call_name(c) == 'setattr' or (
+            isinstance(c.func, ast.Attribute) and isinstance(c.func.value, ast.Name) and c.func.value.id == me)]
+        if not stores:
+            if indirect:
+                ck.missing(rule, '%s: no direct store `%s.result_ = ...` (result possibly stored by %s)' % (
+                    q, me, u(indirect[0])[:60]))
+            else:
+                ck.bad(rule, mod, fn, q, '%s.result_' % me, 'fit never stores a result')
+            continue
+        n += 1
+        raises = [x for x in walk_local(fn) if isinstance(x, ast.Raise)]
+        if cfg.reachable('ENTRY', 'EXIT', avoiding=stores + raises):
+            if indirect:
+                ck.missing(rule, '%s: a path returns without a direct store of `%s.result_` (possibly stored by %s)' % (
+                    q, me, u(indirect[0])[:60]))
+                n -= 1
+            else:
+                ck.bad(rule, mod, stores[0], q, 'paths to return without `%s.result_ = ...`' % me,
+                       'fit can return without storing a result for the data it was given: result_ (labels_, distances_, '
+                       'center_indices_, centers_) then still describes an earlier fit, whose centre indices are not '
+                       'frames of this `%s`' % X)
+            continue
+        for st in stores:
+            v = st.value
+            r = _component(fi, v, st)
+            call = r[0] if r is not None and r[1] is None else None
+            construct = u(st)[:160]
+            if call is None or _last(call_name(call)) != entry:
+                try:
+                    ps_, calls_ = fi.derives_from(v)
+                except Exception:
+                    ps_, calls_ = set(), set()
+                if X not in ps_ and not any(_last(c) == entry for c in calls_):
+                    ck.bad(rule, mod, st, q, construct, 'the stored result does not depend on the data argument `%s` of fit' % X)
+                else:
+                    ck.missing(rule, '%s: stored result is not directly the value of %s(...): %s' % (q, entry, construct[:80]))
+                continue
+            ent = mod.functions.get(entry)
+            data = arg_or_kw(call, 0, params(ent)[0] if ent is not None and params(ent) else 'X')
+            if data is None:
+                ck.missing(rule, '%s: data argument of %s not found' % (q, u(call)[:60]))
+                continue
+            try:
+                dps, _ = fi.derives_from(data)
+            except Exception:
+                dps = set()
+            if isinstance(data, ast.Name) and data.id == X and fi.defs_of_use(data) == {'PARAM'}:
+                ck.ok(rule, mod, st, construct, 'result_ = %s(%s, ...) on every returning path' % (entry, X))
+            elif X in dps:
+                ck.ok(rule, mod, st, construct, 'result_ = %s(<derived from %s>, ...)' % (entry, X))
+            elif isinstance(data, ast.Attribute) or (isinstance(data, ast.Name) and not dps - {me}):
+                ck.bad(rule, mod, st, q, construct, 'the data handed to %s is `%s`, not the `%s` given to this fit' % (
+                    entry, u(data)[:40], X))
+            else:
+                ck.missing(rule, '%s: data argument `%s` of %s not related to `%s`' % (q, u(data)[:40], entry, X))
+    ck.floor(rule, n, 3, 'estimator fit methods')
+
+
+def _unpack_by_use(mod, fn, fi, bound):
+    """Roles of the names bound to element 0 / 1 of an assign_to_nearest_center
+    result ({0: [(name, def site)], 1: [...]}) by what they are passed as."""
+    def elem(x):
+        if not isinstance(x, ast.Name):
+            return None
+        try:
+            defs = fi.defs_of_use(x)
+        except Exception:
+            return None
+        for k in (0, 1):
+            if any(x.id == nm and site in defs for nm, site in bound[k]):
+                return k
+        return None
     votes = set()
     for c in calls_in(fn):
         for k in c.keywords:
-            if isinstance(k.value, ast.Name) and k.arg in ('assignments', 'distances') and k.value.id in (a, d):
-                if s in fi.defs_of_use(k.value):
-                    votes.add('ok' if (k.arg == 'assignments') == (k.value.id == a) else 'bad')
-        if _last(call_name(c)) == 'find_cluster_centers' and len(c.args) == 2 and \
-                all(isinstance(x, ast.Name) for x in c.args) and {c.args[0].id, c.args[1].id} == {a, d}:
-            votes.add('ok' if c.args[0].id == a else 'bad')
+            if k.arg in ('assignments', 'distances'):
+                e = elem(k.value)
+                if e is not None:
+                    votes.add('ok' if (k.arg == 'assignments') == (e == 0) else 'bad')
+        if _last(call_name(c)) == 'find_cluster_centers' and len(c.args) == 2:
+            e0, e1 = elem(c.args[0]), elem(c.args[1])
+            if e0 is not None and e1 is not None and e0 != e1:
+                votes.add('ok' if e0 == 0 else 'bad')
     if votes == {'ok'}:
         return 'ok'
     if votes == {'bad'}:
@@ -1722,6 +2312,7 @@ def check(ck):
     d3_pam_three_way(ck)
     d4_result_fields(ck)
     d4_index_dtype(ck)
+    d4_fit_result(ck)
     entries = [(KC, 'kcenters'), (KC, 'kcenters_mpi'), (KM, 'kmedoids'),
                (HY, 'hybrid'), (CU, 'assign_to_nearest_center'),
                (CU, 'find_cluster_centers'), (KC, 'KCenters.fit'),
